@@ -33,18 +33,21 @@ def discover(I, d):
         raise Setup("Display/Debug impls of the printer not found")
     from .. import rules
     idx = rules.Index(prog)
-    common = None
+    # the edge-dispatch function: the one function outside the writer that both opens and closes items, reachable from both fmt bodies
+    own = set(d.get("own_methods", [])) | {d["write_str"]}
+    users = (idx.users(d["open"]) & idx.users(d["close"])) - own
+    reach = None
     for k in fmts.values():
-        es = {e for e in idx.edges.get(k, ()) if "mir" in prog.fns.get(e, {})}
-        common = es if common is None else (common & es)
+        r_ = idx.reachable([k])
+        reach = r_ if reach is None else (reach & r_)
     cands = []
-    for k in sorted(common or ()):
+    for k in sorted(users & (reach or set())):
         mir = prog.fns[k]["mir"]
         tys = [prog.tys(mir["locals"][i]["ty"]) for i in range(1, mir["arg_count"] + 1)]
         if any(d["writer"] in t and t.startswith("&") for t in tys) and any(TRAVERSE in t and t.startswith("&") for t in tys):
             cands.append((k, tys))
     if len(cands) != 1:
-        raise Setup("cannot identify the edge-dispatch function shared by the two fmt bodies (candidates %s)" % [c[0] for c in cands])
+        raise Setup("cannot identify the edge-dispatch function (the function that opens and closes items; candidates %s)" % [c[0] for c in cands])
     key, tys = cands[0]
     wi = [i for i, t in enumerate(tys) if d["writer"] in t][0]
     ti = [i for i, t in enumerate(tys) if TRAVERSE in t][0]
@@ -93,6 +96,8 @@ def ret_node(I, st, v):
         n = pm.payload_node(I, st, x)
         if n is not None:
             return ("ok-some", n)
+        if isinstance(x, VRef) and x.root[0] == "node" and not x.path:
+            return ("ok-some", x.root[1])          # a reference to the node itself
         return ("?", repr(x))
     return ("?", repr(v))
 
@@ -217,6 +222,8 @@ def driver_entry(I, d, init_line, fields, arg_to_flag, li):
                 st.propagate()
                 if "NodeId" in dd["ret"]:
                     some_v = ok(some(st.id_of(c1)))
+                elif "crate::node::Node<" in dd["ret"]:
+                    some_v = ok(some(VRef(("node", c1), (), False)))
                 elif "&" in dd["ret"]:
                     some_v = ok(some(VRef(("node", c1), (("field", "data"), ("variant", "Data"), ("field", "0")), False)))
                 else:
